@@ -5,15 +5,22 @@
 //!   vcheck replay <ID> <file>              strict re-run of a saved case
 //!   vcheck worker ... / vcheck one ...     internal
 
+mod c02;
 mod c19;
+mod compile;
 mod engine;
+mod gen;
+mod model;
+mod observe;
+mod refcheck;
+mod render;
 mod proc;
 mod wire;
 
 use engine::{Check, Tier};
 
 fn registry() -> Vec<&'static dyn Check> {
-    vec![&c19::C19]
+    vec![&c02::C02, &c19::C19]
 }
 
 fn find(id: &str) -> &'static dyn Check {
